@@ -13,5 +13,6 @@ CONSTANTS
   Chars = {49, 112, 116, 46}
   IntParts = {}
   Sample = 1
+  HiStep = 1
 INVARIANTS InvRelex
 CHECK_DEADLOCK FALSE
